@@ -290,6 +290,22 @@ def c20_run(desc):
                 if len(grp) < 2:
                     break
                 for k in range(nbursts):
+                    if desc.get("split"):
+                        # progress-style output: the first part of a line, a pause longer than the
+                        # flush period, then the rest of the line (still newline-terminated text)
+                        for ch in grp:
+                            t = os.path.relpath(ch.cwd, r.dir)
+                            bo, be = burst("stdout", t, cmd, k), burst("stderr", t, cmd, k)
+                            c.send(ch, ["out " + bo[:9].hex(), "err " + be[:11].hex()])
+                            c.wait_acks(ch, 10)
+                        c.wait(lambda: False, GAP)
+                        for ch in grp:
+                            t = os.path.relpath(ch.cwd, r.dir)
+                            bo, be = burst("stdout", t, cmd, k), burst("stderr", t, cmd, k)
+                            c.send(ch, ["out " + bo[9:].hex(), "err " + be[11:].hex()])
+                            c.wait_acks(ch, 10)
+                        c.wait(lambda: False, GAP)
+                        continue
                     for ch in grp:
                         t = os.path.relpath(ch.cwd, r.dir)
                         c.send(ch, ["out " + burst("stdout", t, cmd, k).hex(), "err " + burst("stderr", t, cmd, k).hex()])
@@ -355,6 +371,9 @@ def c20_scenarios(tier):
     csub = [[], ["build"], ["test"], ["build", "test"]]
     for s_, t, c in itertools.product(streams, tsub, csub):
         out.append({"streams": s_, "targets": t, "commands": c, "short": tier == "quick"})
+    # lines written in two parts with a flush tick in between (progress-style output)
+    for s_, t, c in [(["--stdout", "--stderr"], [], []), (["--stdout"], ["a"], []), (["--stderr"], [], ["test"]), (["--stdout", "--stderr"], ["b"], ["build"])]:
+        out.append({"streams": s_, "targets": t, "commands": c, "short": True, "split": True})
     # held schedules: the first task to flush is held inside the critical section
     n = 6 if tier == "quick" else 24
     for i in range(n):
@@ -412,7 +431,7 @@ def run(prop, tier):
                "held_schedules_with_contender": sum(1 for r in good if r.get("contended")),
                "violations": [v for r in good for v in r["violations"]], "samples": [r["sample"] for r in good[:: max(1, len(good) // 5)]][:6],
                "exhaustive": True,
-               "rule": "filters: 2 targets x 2 commands x both streams with a listener for every (streams in 3) x (target subset in 4) x (command subset in 4) = 48 filter combinations, children writing newline-terminated text distinct per (stream, target, command) in bursts %.2fs apart; interleavings: the first task to reach stream.mid (header written, connection mutex held) is held there until another task has reached stream.pre behind it plus 0.3 s, then released; oracle: one stream header, every later line inside a header-introduced block, blocks only for admitted (stream, target, command), per key concatenation == stored log, and no second task at stream.mid while one is held; states/transitions = blocks relayed" % GAP}
+               "rule": "filters: 2 targets x 2 commands x both streams with a listener for every (streams in 3) x (target subset in 4) x (command subset in 4) = 48 filter combinations, children writing newline-terminated text distinct per (stream, target, command) in bursts %.2fs apart (plus 4 scenarios in which every line is written in two parts with a flush tick in between); interleavings: the first task to reach stream.mid (header written, connection mutex held) is held there until another task has reached stream.pre behind it plus 0.3 s, then released; oracle: one stream header, every later line inside a header-introduced block, blocks only for admitted (stream, target, command), per key concatenation == stored log, and no second task at stream.mid while one is held; states/transitions = blocks relayed" % GAP}
     by = {}
     for v in agg["violations"]:
         by[v["sig"]] = by.get(v["sig"], 0) + 1
